@@ -123,6 +123,9 @@ def e2e_monitor(case, il, sl):
             return ("declared dead after %d ms of silence, 2h = %d ms" % (t, 2 * h), "c17-late")
         if "MissedServerHeartbeats" not in close:
             return ("silent server: close reports %r" % close, "c17-kind")
+    if mode == "dribble":
+        if death != ["none"]:
+            return ("the server sent a byte every 0.4 h (a frame completing only every 3.2 h) yet the connection was declared dead after %s ms: inbound bytes must count as liveness" % death[1], "c17-false-death")
     if mode == "chatty":
         if death != ["none"]:
             return ("server sent a frame every 0.9 h yet the connection died after %s ms" % death[1], "c17-false-death")
@@ -137,10 +140,11 @@ def e2e_monitor(case, il, sl):
 
 def gen_e2e(tier, seed):
     cases = [Case("e1", ["run 1 60 silent 3600"], {"keep_prefix": 0}), Case("e2", ["run 60 1 chatty 4200"], {"keep_prefix": 0}),
-             Case("e3", ["run 0 5 silent 2500"], {"keep_prefix": 0}), Case("e4", ["run 5 0 silent 2500"], {"keep_prefix": 0})]
+             Case("e3", ["run 0 5 silent 2500"], {"keep_prefix": 0}), Case("e4", ["run 5 0 silent 2500"], {"keep_prefix": 0}),
+             Case("e8", ["run 1 60 dribble 4500"], {"keep_prefix": 0})]
     if tier != "quick":
         cases += [Case("e5", ["run 2 2 silent 6000"], {"keep_prefix": 0}), Case("e6", ["run 2 3 chatty 12500"], {"keep_prefix": 0}),
-                  Case("e7", ["run 1 1 chatty 6500"], {"keep_prefix": 0})]
+                  Case("e7", ["run 1 1 chatty 6500"], {"keep_prefix": 0}), Case("e9", ["run 2 2 dribble 9000"], {"keep_prefix": 0})]
     return cases
 
 
@@ -149,5 +153,5 @@ def suites(tier, seed):
         Suite("heartbeat-fire", "heartbeat", lambda: gen(tier, seed), monitor=monitor, nontrivial=nontrivial, compare=False, shards=8, timeout=300,
               rule="real Heartbeat + real mio-extras timer, intervals 200-600 ms: scripts of sleeps to just below / at / above the 5 ms fudge threshold, activity, waiting for the real timer to fire, and fire(); every call bracketed by clock readings, the Lean model evaluated at both ends of each bracket"),
         Suite("heartbeat-e2e", "hbe2e", lambda: gen_e2e(tier, seed), monitor=e2e_monitor, nontrivial=lambda c, il: True, compare=False, shards=8, timeout=300,
-              rule="real connection over the mock transport, real seconds: silent server (death time measured from the server's last byte, failure kind), server sending every 0.9 h (must survive; client heartbeat spacing), heartbeat 0 on either side (nothing happens)"),
+              rule="real connection over the mock transport, real seconds: silent server (death time measured from the server's last byte, failure kind), server sending every 0.9 h (must survive; client heartbeat spacing), server dribbling one byte every 0.4 h so that a frame completes only every 3.2 h (must survive: any inbound traffic is liveness), heartbeat 0 on either side (nothing happens)"),
     ]
